@@ -547,6 +547,31 @@ fn scenario(s: Scheme, name: &str) -> Option<(Option<bool>, bool)> {
             call_mocked(e, &x.issuer, "bump_nonce", (x.identity.clone(), 1u32).into_val(e)).ok()?;
             got = valid(&x.identity, 1, s.num(), &genuine_sig(1, 1, &data), &data);
         }
+        "revoked-then-ledgers-pass" => {
+            // the revocation must outlive any number of ledgers (only the sequence moves: the
+            // claim itself stays within its validity period)
+            allow(&pk, s.num(), 1).ok()?;
+            call_mocked(e, &x.issuer, "revoke", (x.identity.clone(), 1u32, b(&data), true).into_val(e)).ok()?;
+            let n: u32 = parts[1].parse().ok()?;
+            e.ledger().with_mut(|li| li.sequence_number += n);
+            got = valid(&x.identity, 1, s.num(), &genuine_sig(1, 0, &data), &data);
+        }
+        "nonce-bumped-then-ledgers-pass" => {
+            allow(&pk, s.num(), 1).ok()?;
+            let sig = genuine_sig(1, 0, &data);
+            call_mocked(e, &x.issuer, "bump_nonce", (x.identity.clone(), 1u32).into_val(e)).ok()?;
+            let n: u32 = parts[1].parse().ok()?;
+            e.ledger().with_mut(|li| li.sequence_number += n);
+            got = valid(&x.identity, 1, s.num(), &sig, &data);
+        }
+        "genuine-after-ledgers-pass" => {
+            // the key authorization must not silently lapse either
+            allow(&pk, s.num(), 1).ok()?;
+            let n: u32 = parts[1].parse().ok()?;
+            e.ledger().with_mut(|li| li.sequence_number += n);
+            expect = Some(true);
+            got = valid(&x.identity, 1, s.num(), &genuine_sig(1, 0, &data), &data);
+        }
         "sig-data-truncated" => {
             allow(&pk, s.num(), 1).ok()?;
             let sig = genuine_sig(1, 0, &data);
@@ -608,6 +633,13 @@ fn scenario_names(tier: Tier) -> Vec<String> {
         "revoked-then-unrevoked",
         "other-claim-revoked",
         "revoked-survives-nonce-bump",
+        "revoked-then-ledgers-pass:1",
+        "revoked-then-ledgers-pass:20",
+        "revoked-then-ledgers-pass:100000",
+        "nonce-bumped-then-ledgers-pass:1",
+        "nonce-bumped-then-ledgers-pass:100000",
+        "genuine-after-ledgers-pass:1",
+        "genuine-after-ledgers-pass:100000",
         "sig-data-truncated",
         "sig-data-extended",
         "wrong-scheme-number",
